@@ -13,7 +13,7 @@ EXTENDS Naturals, Sequences, FiniteSets, TLC
 CONSTANTS Bodies,        \* h -> Seq of members [k |-> "call"|"note"|"inv", id |-> inbound id (0 = none)]
           SharedScratch
 
-VARIABLES req,      \* h -> [pc, k, cids (client ids allocated, per call in order), inb (inbound ids kept for remapping), res]
+VARIABLES req,      \* h -> [pc, k (allocation counter; the HTTP status once done), cids (client ids allocated, per call in order), inb (inbound ids kept for remapping), res]
           nextID,
           scratch,  \* the shared buffer (only used when SharedScratch)
           run       \* client id -> [h, pos, st: "running"|"done"]   (handler invocations)
@@ -22,6 +22,7 @@ H == DOMAIN Bodies
 
 Calls(h) == SelectSeq(Bodies[h], LAMBDA m : m.k = "call")
 Valid(h) == SelectSeq(Bodies[h], LAMBDA m : m.k # "inv")
+Invalid(h) == SelectSeq(Bodies[h], LAMBDA m : m.k = "inv")
 InbIds(h) == [i \in 1..Len(Calls(h)) |-> Calls(h)[i].id]
 
 Init == /\ req = [h \in H |-> [pc |-> "idle", k |-> 0, cids |-> <<>>, inb |-> <<>>, res |-> <<>>]]
@@ -67,7 +68,10 @@ HandlerRet(x) == /\ x \in DOMAIN run /\ run[x].st = "running"
 Reply(h) == /\ req[h].pc = "reply"
             /\ LET ids == IF SharedScratch THEN [i \in 1..Len(req[h].cids) |-> scratch[i]] ELSE req[h].inb IN
                req' = [req EXCEPT ![h].pc = "done",
-                                  ![h].res = [i \in 1..Len(req[h].cids) |-> [id |-> ids[i], of |-> <<h, i>>]]]
+                                  ![h].res = [i \in 1..Len(req[h].cids) |-> [id |-> ids[i], of |-> <<h, i>>]],
+                                  \* 200 with the response objects (those of the calls and the error objects of the
+                                  \* statically invalid members), 204 when there is none
+                                  ![h].k = IF Len(req[h].cids) + Len(Invalid(h)) > 0 THEN 200 ELSE 204]
             /\ UNCHANGED <<nextID, scratch, run>>
 
 IdSpace == 1..6
@@ -83,5 +87,8 @@ OwnIds == \A h \in H : req[h].pc = "done" =>
              /\ Len(req[h].res) = Len(Calls(h))
              /\ \A i \in 1..Len(req[h].res) : req[h].res[i].id = Calls(h)[i].id /\ req[h].res[i].of = <<h, i>>
 ClientIdsUnique == \A a, b \in H : a # b => \A i \in 1..Len(req[a].cids), j \in 1..Len(req[b].cids) : req[a].cids[i] # req[b].cids[j]
+\* C18: 204 exactly for bodies that held only notifications (req[h].k holds the status once the request is done)
+StatusRule == \A h \in H : req[h].pc = "done" =>
+                 (req[h].k = 204 <=> \A i \in 1..Len(Bodies[h]) : Bodies[h][i].k = "note")
 EachHandlerOnce == \A h \in H : req[h].pc = "done" => Cardinality({x \in DOMAIN run : run[x].h = h}) = Len(Calls(h))
 ====================================================================================
